@@ -394,17 +394,20 @@ def fam_signals(seed, big):
 PATH_KINDS = ["ok", "missing", "noexec", "dir", "garbage"]
 
 
-def fam_path(seed, big):
-    """C15 (+C17): PATH shapes x candidate kinds; every scenario gets its own directory tree"""
-    rng = random.Random(seed * 53 + 15)
-    root = os.path.join(SP, "path")
-    shutil.rmtree(root, ignore_errors=True)
-    os.makedirs(root)
-    out = []
-    n = [0]
+class PathMaker:
+    """builds one directory tree + launch scenario per PATH shape (mk); the scenarios collect in .out"""
 
-    def mk(entries, cmd, extra=None, slash=False):
+    def __init__(self, sub, prefix="p"):
+        self.root = os.path.join(SP, sub)
+        shutil.rmtree(self.root, ignore_errors=True)
+        os.makedirs(self.root)
+        self.out = []
+        self.n = [0]
+        self.prefix = prefix
+
+    def mk(self, entries, cmd, extra=None, slash=False):
         """entries: list of kind | "" (empty PATH entry) | ("dup", j) | "unreadable" | "long" """
+        root, out, n = self.root, self.out, self.n
         i = n[0]
         n[0] += 1
         base = os.path.join(root, "p%d" % i)
@@ -475,7 +478,7 @@ def fam_path(seed, big):
                 k = "ok"  # root searches through mode-000 directories; the monitor follows the kernel
             dirs.append(d)
             kinds.append(k)
-        sc = {"id": "p%d" % i, "class": "path", "argv": [hx(cmd), hx("arg")],
+        sc = {"id": "%s%d" % (self.prefix, i), "class": "path", "argv": [hx(cmd), hx("arg")],
               "path": hx(":".join(dirs)), "path_entries": [[hx(d), k] for d, k in zip(dirs, kinds)], "cmd": hx(cmd),
               "has_path": True}
         if all(d == "" for d in dirs):
@@ -483,6 +486,14 @@ def fam_path(seed, big):
         if extra:
             sc.update(extra)
         out.append(sc)
+        return sc
+
+
+def fam_path(seed, big):
+    """C15 (+C17): PATH shapes x candidate kinds; every scenario gets its own directory tree"""
+    rng = random.Random(seed * 53 + 15)
+    maker = PathMaker("path")
+    mk, out, root = maker.mk, maker.out, maker.root
 
     kinds = PATH_KINDS
     for a in kinds:
